@@ -87,7 +87,7 @@ def check(ctx):
             srcs = {}
             for f_, vals in fa.items():
                 for v in vals:
-                    for base, kind in _re.findall(r"((?:param:#\d+|_parse_[a-z_]+#\d+\+?(?:\[\d\])?))\[(qual|storage|function|alignment|type)\]", v):
+                    for base, kind in _re.findall(r"((?:param:#\d+!?|_parse_[a-z_]+#\d+\+?(?:@\w+)?(?:\[\d\])?))\[(qual|storage|function|alignment|type)\]", v):
                         srcs.setdefault(base, set()).add(kind)
             for base, got in sorted(srcs.items()):
                 if "qual" not in got:
@@ -95,7 +95,7 @@ def check(ctx):
                 if cls == "Typename":
                     # a type name made from DECLARATION specifiers (an unnamed parameter) can carry a storage class; one made from a specifier-qualifier list cannot
                     from_decl_specs = base.startswith("_parse_declaration_specifiers") or (base.startswith("param:") and any(
-                        v2.startswith("_parse_declaration_specifiers") for m2, i2 in cur.items() for l2, f2 in i2.get("calls", i2["records"]) if l2 == "call:" + meth for v2 in f2.get("p" + base.split("#")[1], [])))
+                        v2.startswith("_parse_declaration_specifiers") for m2, i2 in cur.items() for l2, f2 in i2.get("calls", i2["records"]) if l2 == "call:" + meth for v2 in f2.get("p" + base.split("#")[1].rstrip("!"), [])))
                     need = {"qual", "storage"} if from_decl_specs else {"qual"}
                 else:
                     need = REQUIRED[cls]
